@@ -23,6 +23,7 @@ var props = map[string]func(*check.Ctx) int{
 	"C12": check.C12,
 	"C13": check.C13,
 	"C14": check.C14,
+	"C15": check.C15,
 	"C16": check.C16,
 	"C18": check.C18,
 	"C20": check.C20,
